@@ -10,6 +10,7 @@ AST (python tuples), mirrors coq/C05/Model.v:
 import re
 
 QUALS = ["", " <const>", " <comptime>"]
+FPBASE = 50       # variables v50.. are function pointers: `function v50() ... end` assigns a new function to them
 
 # forms of a reference produced by preprocessor interpolation (the Id node then carries a forced symbol)
 INTERP_STYLES = ["expr", "macro", "ppfor"]
@@ -20,6 +21,7 @@ PRELUDE = """## local function zuse(s)
 ## local function zasg(s)
   #[s]# = 1
 ## end
+local function f0() end
 local function cond(): boolean <noinline> return true end
 local function sel(): integer <noinline> return 1 end
 local function sink(a: integer) <noinline> end
@@ -118,7 +120,16 @@ class Printer:
 
     def stmt(self, s, ind, out):
         t = s[0]
-        if t == 'local':
+        if t == 'local' and s[1] >= FPBASE:
+            # a function-pointer variable (the target of `function vN() ... end`)
+            ln = self.emit(ind, "local v%d: function()%s = f0" % (s[1], QUALS[s[2]]))
+            out += [str(ln), "L", str(s[1]), str(s[2])]
+        elif t == 'funcassign':
+            ln = self.emit(ind, "function v%d()" % s[1])
+            out += [str(ln), "FA", str(s[1])]
+            self.block(s[2], ind + 1, out)
+            self.emit(ind, "end")
+        elif t == 'local':
             ln = self.emit(ind, "local v%d%s = 0" % (s[1], QUALS[s[2]]) if s[2] else "local v%d: integer = 0" % s[1])
             out += [str(ln), "L", str(s[1]), str(s[2])]
         elif t == 'assign':
@@ -211,6 +222,7 @@ def force_refs(b, rng, prob=1.0):
         if t == 'use' and rng.random() < prob: out.append(('usef', s[1]))
         elif t == 'assign' and rng.random() < prob: out.append(('assignf', s[1]))
         elif t == 'func': out.append(('func', s[1], s[2], force_refs(s[3], rng, prob)))
+        elif t == 'funcassign': out.append(('funcassign', s[1], force_refs(s[2], rng, prob)))
         elif t in ('do', 'while', 'repeat', 'for', 'defer'): out.append((t, force_refs(s[1], rng, prob)))
         elif t == 'if': out.append(('if', force_refs(s[1], rng, prob), force_refs(s[2], rng, prob)))
         elif t == 'switch': out.append(('switch', [force_refs(x, rng, prob) for x in s[1]], s[2], force_refs(s[3], rng, prob)) + tuple(s[4:]))
@@ -321,6 +333,7 @@ class Gen:
 
     def pick_var(self, cx, want_declared=0.96, assignable=False):
         r = self.rng
+        cx = dict(cx, vars=[v for v in cx['vars'] if v[0] < FPBASE])
         if cx['vars'] and r.random() < want_declared:
             # prefer names that are legal here: same function (or comptime), and plain variables for assignment
             good = [v for v in cx['vars'] if (v[2] == cx['fd'] or v[1] == 2) and (not assignable or v[1] == 0)]
@@ -347,6 +360,15 @@ class Gen:
         # weights by focus
         if f == "names" or (f == "mixed" and w < 0.35):
             k = r.random()
+            if k < 0.07:
+                x = FPBASE + r.randint(0, 3); q = r.choice([0, 0, 1, 2])
+                cx['vars'].append((x, q, cx['fd']))
+                return ('local', x, q)
+            if k < 0.14 and not deep:
+                fps = [v for v in cx['vars'] if v[0] >= FPBASE]
+                x = r.choice(fps)[0] if fps and r.random() < 0.9 else FPBASE + r.randint(0, 3)
+                icx = dict(cx, loop=False, depth=cx['depth'] + 1, fd=cx['fd'] + 1, labels=[])
+                return ('funcassign', x, self.block(icx, 0, 3))
             if k < 0.25:
                 x = r.randint(1, 6); q = r.choice([0, 0, 0, 1, 2])
                 cx['vars'].append((x, q, cx['fd']))
@@ -470,6 +492,7 @@ def has_last_case_ft(b):
                 return True
             subs = list(s[1]) + [s[3]]
         elif t == 'func': subs = [s[3]]
+        elif t == 'funcassign': subs = [s[2]]
         elif t in ('do', 'while', 'repeat', 'for', 'defer'): subs = [s[1]]
         elif t == 'if': subs = [s[1], s[2]]
         if any(has_last_case_ft(x) for x in subs):
@@ -540,6 +563,12 @@ def targeted(rng, ntypes=1):
         [('func', 101, [], [('func', 102, [], [('call', 100, 1)])])], [('func', 101, [], [('use', 1)])],
         [('local', 4, 0), ('while', [('func', 101, [], [('use', 4)])])], [('local', 4, 0), ('defer', [('use', 4), ('assign', 4)])],
         [('local', 4, 2), ('func', 101, [], [('func', 102, [], [('use', 4)])])],
+        [('local', 50, 0), ('funcassign', 50, [])], [('local', 50, 1), ('funcassign', 50, [])], [('local', 50, 2), ('funcassign', 50, [])],
+        [('funcassign', 51, [])], [('funcassign', 50, []), ('local', 50, 0)],
+        [('local', 50, 0), ('func', 101, [], [('funcassign', 50, [])])], [('local', 50, 0), ('funcassign', 50, [('funcassign', 50, [])])],
+        [('local', 50, 0), ('local', 4, 0), ('funcassign', 50, [('use', 4)])], [('local', 50, 0), ('local', 4, 2), ('funcassign', 50, [('use', 4)])],
+        [('local', 50, 1), ('do', [('local', 50, 0), ('funcassign', 50, [])])], [('local', 50, 0), ('do', [('local', 50, 1)]), ('funcassign', 50, [])],
+        [('local', 50, 0), ('while', [('funcassign', 50, [('break',)])])], [('local', 50, 0), ('funcassign', 50, [('while', [('break',)]), ('label', 1), ('goto', 1)])],
     ]
     consts = [[('index', ln, k)] for ln in (1, 4, 256) for k in LATTICE] + \
              [[('conv', t, v, sk, sr)] for t in range(ntypes) for v in LATTICE[::3] for sk in SINKS for sr in SOURCES[:3]] + \
